@@ -213,7 +213,7 @@ def run(tier, seed):
         import copy
         import chaingen
         from skepticoin.datatypes import Transaction
-        for trial in range(30 if tier == 'quick' else 300):
+        for trial in range(30 if tier == 'quick' else 1500):
             n = rng.choice([1, 1, 2, 3, 5])
             hgt = rng.randrange(1, 1000)
             base = [chaingen.coinbase(hgt, 10 ** 9, gen.rb(rng, 64), b'd')] + [gen.g_tx(rng, nin=rng.choice([1, 2]), nout=rng.choice([1, 2])) for _ in range(n - 1)]
